@@ -14,7 +14,7 @@ From Coq Require Import List NArith ZArith Bool FMapPositive.
 Import ListNotations.
 From LC.Base Require Import Float64.
 From Coq Require Import Sorted.
-From LC.V2 Require Import SSet Match Planted MatchWF Shift FuseShift WindowSpec.
+From LC.V2 Require Import SSet Match Planted MatchWF Shift FuseShift WindowSpec WindowShift.
 
 Theorem C07_exact_copy_position_independent_partial :
   forall (H : list N -> N) (q : nat) (A K B : list N),
@@ -190,3 +190,75 @@ Print Assumptions C07_clamp_is_position_dependent.
 (* non-vacuity of the composed corollary *)
 Example C07_fusion_shift_example : ltac:(let t := type of (@fx_shift) in exact t).
 Proof. exact (@fx_shift). Qed.
+
+(* ---- the whole searchset stage, composed ---- *)
+
+(* the runs themselves shift when no window starting in the preceding block can reach the target *)
+Theorem C07_detect_runs_position_independent_partial :
+  forall (src : sset) (q lx lb : N) (SA SX SB : list N) (conf : f64),
+         (forall c : N, In c SA -> PositiveMap.find (pos_of_N c) (hashes src) = None) ->
+         (forall c : N, In c SB -> PositiveMap.find (pos_of_N c) (hashes src) = None) ->
+         (0 < lx)%N ->
+         let tX := {| ss_len := lx; ss_q := q; ss_sums := SX |} in
+         let tE := {| ss_len := N.of_nat (length SA) + lx + lb; ss_q := q; ss_sums := SA ++ SX ++ SB |} in
+         ss_wf src ->
+         ss_wf tX ->
+         (ss_len src <= lx)%N ->
+         (0 < trunc (fmul (of_Z (Z.of_N (ss_len src))) conf))%Z ->
+         (window_count (hits_of (target_matched_ranges src tX) lx) 0 (N.to_nat (ss_len src) - 1) <
+          Z.to_N (trunc (fmul (of_Z (Z.of_N (ss_len src))) conf)))%N ->
+         detect_runs (target_matched_ranges src tE) (ss_len tE) (ss_len src) conf (ss_q src) =
+         map (shift_run (N.of_nat (length SA)))
+           (detect_runs (target_matched_ranges src tX) (ss_len tX) (ss_len src) conf (ss_q src)).
+Proof. exact (@detect_runs_embedded). Qed.
+Print Assumptions C07_detect_runs_position_independent_partial.
+
+(* fusion depends on the target size only through offsets below it *)
+Theorem C07_fusion_size_irrelevant_wf :
+  forall (matched : list range) (conf : f64) (size : N) (runs : list (N * N)) (ts ts' : N),
+         Forall nonneg_off matched ->
+         Forall (fun m : range => (tgt_start m < ts)%N) matched ->
+         (ts <= ts')%N -> fuse_ranges matched conf size runs ts' = fuse_ranges matched conf size runs ts.
+Proof. exact (@fuse_ranges_size_irrelevant_wf). Qed.
+Print Assumptions C07_fusion_size_irrelevant_wf.
+
+(* findPotentialMatches of prefix ++ X ++ suffix = findPotentialMatches of X, shifted: arbitrary X with |X| >= |document| *)
+Theorem C07_searchset_stage_position_independent_partial :
+  forall (src : sset) (q lx lb : N) (SA SX SB : list N) (conf : f64),
+         (forall c : N, In c SA -> PositiveMap.find (pos_of_N c) (hashes src) = None) ->
+         (forall c : N, In c SB -> PositiveMap.find (pos_of_N c) (hashes src) = None) ->
+         (0 < lx)%N ->
+         let tX := {| ss_len := lx; ss_q := q; ss_sums := SX |} in
+         let tE := {| ss_len := N.of_nat (length SA) + lx + lb; ss_q := q; ss_sums := SA ++ SX ++ SB |} in
+         ss_wf src ->
+         ss_wf tX ->
+         (ss_len src <= lx)%N ->
+         (0 < trunc (fmul (of_Z (Z.of_N (ss_len src))) conf))%Z ->
+         Forall nonneg_off (target_matched_ranges src tX) ->
+         find_potential_matches src tE conf =
+         map (shift (N.of_nat (length SA))) (find_potential_matches src tX conf).
+Proof. exact (@searchset_stage_position_independent_no_edge). Qed.
+Print Assumptions C07_searchset_stage_position_independent_partial.
+
+Theorem C07_matched_ranges_stage_position_independent_partial :
+  forall (src : sset) (q lx lb : N) (SA SX SB : list N) (conf : f64),
+         (forall c : N, In c SA -> PositiveMap.find (pos_of_N c) (hashes src) = None) ->
+         (forall c : N, In c SB -> PositiveMap.find (pos_of_N c) (hashes src) = None) ->
+         (0 < lx)%N ->
+         let tX := {| ss_len := lx; ss_q := q; ss_sums := SX |} in
+         let tE := {| ss_len := N.of_nat (length SA) + lx + lb; ss_q := q; ss_sums := SA ++ SX ++ SB |} in
+         ss_wf src ->
+         ss_wf tX ->
+         (ss_len src <= lx)%N ->
+         (0 < trunc (fmul (of_Z (Z.of_N (ss_len src))) conf))%Z ->
+         Forall nonneg_off (target_matched_ranges src tX) ->
+         get_matched_ranges src tE conf = map (shift (N.of_nat (length SA))) (get_matched_ranges src tX conf).
+Proof. exact (@get_matched_ranges_position_independent_no_edge). Qed.
+Print Assumptions C07_matched_ranges_stage_position_independent_partial.
+
+(* non-vacuity: a damaged copy longer than the document, all hypotheses hold, one range reported, shifted by two *)
+Example C07_stage_example : ltac:(let t := type of (@wx_stage_computed) in exact t).
+Proof. exact (@wx_stage_computed). Qed.
+(* the run boundaries differ at the leading edge, the final result still shifts *)
+Example C07_leading_edge_final_result : ltac:(let t := type of (@leading_edge_final_result_still_shifts) in exact t).
+Proof. exact (@leading_edge_final_result_still_shifts). Qed.
